@@ -314,7 +314,7 @@ func (fs *FileSink) pruneFiles() error {
 
 	// A negative MaxFiles keeps no rotated file at all.
 	stale := len(matches) - fs.MaxFiles
-	if stale > len(matches) {
+	if fs.MaxFiles < 0 || stale > len(matches) {
 		stale = len(matches)
 	}
 	for i := 0; i < stale; i++ {
